@@ -133,3 +133,9 @@ Fixpoint last_leaf (t : rt) : option str :=
     (fix go (l : list rt) : option str :=
        match l with [] => None | [q] => last_leaf q | _ :: r => go r end) ps
   end.
+
+(* split(): the pairs that survive text.split() -- an unprotected whitespace character is a
+   separator and disappears, everything else (protected whitespace included) is kept *)
+Definition ws_sep (p : pair) : bool :=
+  negb (protected p) && match fst p with ACh c => is_space c | ASym _ => false end.
+Definition drop_ws (f : flat_text) : flat_text := filter (fun p => negb (ws_sep p)) f.
